@@ -275,7 +275,7 @@ def r07_4_origins(chk):
     """Origins, on the value-flow normal form: what every add_* hands to the item constructor as origin reference, how
     add_origin numbers a new origin and which objects it back-fills - read off the inlined summaries, so that helper
     methods / properties (self.origins, _adopt_origin_reference, ...) are looked through."""
-    from ..terms import (SELF, A, K, NONE, contains, subterms, is_call, call_name, call_arg, pp, alternatives,
+    from ..terms import (ctor_calls, bound_arg, SELF, A, K, NONE, contains, subterms, is_call, call_name, call_arg, pp, alternatives,
                          return_alternatives, raise_conditions, attr_stores, mk_bool)
     ix = chk.ix
     model = Model(ix)
@@ -288,8 +288,8 @@ def r07_4_origins(chk):
     new_ref_call = None
     for f, ic, ctor in sorted(ams, key=lambda t: t[0].name):
         su = chk.summary(f)
-        ctor_terms = [c for c in su.all_calls() if call_name(c) == ic.name and call_arg(c, kw="origin_reference") is not None]
-        o = call_arg(ctor_terms[0], kw="origin_reference") if ctor_terms else None
+        ctor_terms = [c for c in ctor_calls(su, ic) if bound_arg(chk.terms, su, c, "origin_reference") is not None]
+        o = bound_arg(chk.terms, su, ctor_terms[0], "origin_reference") if ctor_terms else None
         if f.name == "add_origin":
             cands = [o] if o is not None else []
             if o is not None and o[0] == "or":
